@@ -14,7 +14,7 @@ import c01_common as cc
 import npc_gen
 
 PROP = 'C01'
-COQ_IMPORTS = ['Base.Prelude']
+COQ_IMPORTS = ['Base.Prelude', 'Model.Charge', 'Model.Tensor', 'Model.TensorOps', 'Model.TensorCheck']
 
 
 def replay(ctx, prop):
@@ -40,7 +40,7 @@ def coq_stream(ctx, prop, results, programs, checker, max_cases):
                 ctx.fail('correspondence', 'cannot build Coq literal: %r' % (e,), None)
                 lit = None
             if lit is not None:
-                cases.append(lit)
+                cases.append('(%s : case)' % lit)
                 origin.append((pi, rec['op']))
     if not cases or not os.path.exists(os.path.join(common.VERIF, 'coq', 'Model', 'TensorCheck.v')):
         return 0, {}
@@ -59,12 +59,57 @@ def coq_stream(ctx, prop, results, programs, checker, max_cases):
     return len(cases), per_op
 
 
+def gen_label(rng, depth=0):
+    if depth >= 3 or rng.random() < 0.6:
+        base = rng.choice(['a', 'b', 'vL', 'vR', 'p', 'w0', 'x', '?0', '?3', '?12'])
+        if rng.random() < 0.3 and not base.startswith('?'):
+            base += '*'
+        return base
+    return '(' + '.'.join(gen_label(rng, depth + 1) for _ in range(rng.randint(1, 3))) + ')'
+
+
+def label_stream(ctx, rng, n):
+    """Array._combine_leg_labels / _split_leg_label / _conj_leg_label against Model/Labels.v (+ oracle: documented round trips)"""
+    cases = [{'labels': [gen_label(rng) for _ in range(rng.randint(1, 4))]} for _ in range(n)]
+    for c in cases:
+        if rng.random() < 0.1:
+            c['count'] = len(c['labels']) + rng.choice([-1, 1])
+    res, infos, crashes = cc.run_programs('labels', cases, 'py', False, nchunks=1)
+    lits = []
+    for c, r in zip(cases, res):
+        ls = c['labels']
+        cnt = c.get('count', len(ls))
+        ctx.count('labels', ls, nontrivial=any('(' in l for l in ls), sample={'labels': ls, 'combined': r.get('combined')})
+        if 'combined' not in r:
+            ctx.fail('correspondence', 'label runner failed: %s' % (r,), {'stream': 'labels', 'case': c})
+            continue
+        # oracle: documented behaviour
+        want = [None if l.startswith('?') else l for l in ls]
+        if cnt == len(ls) and r['split'] != want:
+            ctx.fail('oracle', '_split_leg_label(_combine_leg_labels(%r)) = %r, documented %r' % (ls, r['split'], want),
+                     {'stream': 'labels', 'case': c}, match_key='C01:_split_leg_label:roundtrip')
+        if cnt != len(ls) and r['split'] != 'ValueError':
+            ctx.fail('oracle', '_split_leg_label with wrong count %d accepted: %r' % (cnt, r['split']), {'stream': 'labels', 'case': c},
+                     match_key='C01:_split_leg_label:wrong-count-accepted')
+        if r['conj_conj'] != ls:
+            ctx.fail('oracle', '_conj_leg_label is not an involution on %r: %r' % (ls, r['conj_conj']), {'stream': 'labels', 'case': c},
+                     match_key='C01:_conj_leg_label:involution')
+        spl = None if r['split'] == 'ValueError' else common.Some([common.opt(x) for x in r['split']])
+        lits.append('(%s : label_case)' % common.coq_lit((ls, cnt, r['combined'], spl, r['conj'], r['conj_combined'])))
+    bad, err = common.coq_failing_indices('cases_c01_labels', ['Base.Prelude', 'Model.Labels', 'Model.LabelsCheck'], 'check_label_case', lits, shard=400)
+    if err:
+        ctx.fail('correspondence', 'label model evaluation failed: ' + err[-600:], None)
+    for b in bad[:5]:
+        ctx.fail('correspondence', 'Model/Labels.v and the label functions of np_conserved disagree', {'stream': 'labels', 'case': cases[b], 'impl': res[b]})
+    return len(lits)
+
+
 def main(ctx):
     if ctx.replay_in:
         ctx.proof = None
         return replay(ctx, PROP)
     rng = ctx.rng
-    ctx.proof = common.check_proofs(PROP)
+    ctx.proof = common.check_proofs(PROP, extra_targets=['Model/TensorCheck.vo', 'Model/LabelsCheck.vo'])
     nprog = ctx.pick(1400, 12000)
     nleg = ctx.pick(1500, 10000)
     if not ctx.proof.ok:
@@ -88,7 +133,8 @@ def main(ctx):
     results, infos, crashes = cc.run_programs('legs', legprogs, 'py', False)
     hist, notes = cc.collect(ctx, PROP, 'legs', legprogs, results, crashes, 'py', False, kind='legs', seen_keys=seen)
     all_hist['legs'] = hist
-    ctx.cov['traces_validated_against_impl'] = sum(v['cases'] for v in coq_done.values())
+    nlab = label_stream(ctx, rng, ctx.pick(400, 3000))
+    ctx.cov['traces_validated_against_impl'] = sum(v['cases'] for v in coq_done.values()) + nlab
     ctx.cov['model_vs_impl'] = coq_done
     ctx.cov['input_distribution'] = all_hist
     ctx.assumptions += [
